@@ -276,7 +276,7 @@ theorem All2_flatten_nil {α β γ : Type} {R : α → List β → Prop} (T : α
 /-- generator + writer of all emitted pairs -/
 theorem body_genN (e : BEnv) (Γ : Ctx) (cfg : SerCfg) (M : NsMap) (ns : Option Str)
     (rec : XmlVar → Val → Tree) {m : XmlMeta} (chunks : List (XmlVar × Val)) (f : Nat)
-    (h : ∀ c ∈ chunks, ElemFactsN m c.1 ∧ Shape c.1 c.2 ∧ (c.2 ≠ .none ∨ c.1.nillable = true) ∧
+    (h : ∀ c ∈ chunks, ChunkEq e Γ cfg c.1 ∧ Shape c.1 c.2 ∧ (c.2 ≠ .none ∨ c.1.nillable = true) ∧
       ∀ y ∈ itemsN c.1 c.2, ∃ evs,
         itemGen e Γ cfg c.1 ns (chunkFuel c.2 f) y = .ok evs ∧
         SubW M (isDatatype Γ) evs (treeSax (itemTreeNN M rec c.1 y))) :
@@ -289,7 +289,7 @@ theorem body_genN (e : BEnv) (Γ : Ctx) (cfg : SerCfg) (M : NsMap) (ns : Option 
       (chunkTrees M (itemTreeNN M rec c.1) c.1 c.2 = [] → evs = []))
     chunks (fun c hc => by
       obtain ⟨hf, hs, hx, hit⟩ := h c hc
-      exact varGN e Γ cfg M ns _ hf hs hx f hit)
+      exact varGN' e Γ cfg M ns _ f (hf _ hs hx ns f) hit)
   refine ⟨body, hb, ?_, ?_⟩
   · rw [treesSax_flatMap]
     exact BodyW_forall₂ _ chunks body (hall.mono (fun _ _ h => h.1))
